@@ -30,3 +30,24 @@ func DebugRun(p *core.Prog, rel, recv, name string) {
 		}
 	}
 }
+
+// DebugPush prints the abstract paths of Board.PushMove for one move kind.
+func DebugPush(p *core.Prog, kind string) {
+	c := &Ctx{P: p, R: core.NewRun("dbg", "quick", "other")}
+	g := newGameModel(c, "dbg")
+	if g == nil {
+		fmt.Println("model failed", c.R.Obls)
+		return
+	}
+	paths, und := g.runPush(kind, "White")
+	fmt.Println("undecided:", und)
+	for i, pp := range paths {
+		fmt.Printf("--- path %d ok=%v\n  facts: %s\n", i, pp.ok, pp.facts)
+		for _, e := range pp.o.St.Effects {
+			fmt.Printf("  effect: %s\n", e)
+		}
+		for _, k := range pp.o.St.SymStores() {
+			fmt.Printf("  final %s = %s\n", k, vstrOf(pp.o.St.SymMem[k]))
+		}
+	}
+}
